@@ -266,6 +266,34 @@ theorem popScope_nodes (st : St) : (popScope st).cur.nodes = st.cur.nodes := by
   · split <;> rfl
   · rfl
 
+theorem cloneNodes_cache (np : String) : ∀ (nodes : List FNode) (st : St) (m : VMap),
+    (cloneNodes st m np nodes).1.cache = st.cache
+  | [], st, m => rfl
+  | n :: r, st, m => by
+    simp only [cloneNodes]
+    rw [cloneNodes_cache np r]
+    simp only [cloneNode, newValues]
+    exact (newValuesK_spec _ st).2.2.2.1
+
+theorem cloneNodes_inits (np : String) : ∀ (nodes : List FNode) (st : St) (m : VMap),
+    (cloneNodes st m np nodes).1.inits = st.inits
+  | [], st, m => rfl
+  | n :: r, st, m => by
+    simp only [cloneNodes]
+    rw [cloneNodes_inits np r]
+    simp only [cloneNode, newValues]
+    exact (newValuesK_spec _ st).2.2.2.2.1
+
+theorem cloneNodes_L_le (np : String) : ∀ (nodes : List FNode) (st : St) (m : VMap),
+    st.L ≤ (cloneNodes st m np nodes).1.L
+  | [], st, m => Nat.le_refl _
+  | n :: r, st, m => by
+    simp only [cloneNodes]
+    refine Nat.le_trans ?_ (cloneNodes_L_le np r _ _)
+    simp only [cloneNode, newValues]
+    rw [(newValuesK_spec _ st).2.1]
+    omega
+
 theorem cloneNodes_handles (np : String) : ∀ (nodes : List FNode) (st : St) (m : VMap),
     (cloneNodes st m np nodes).1.handles = st.handles
   | [], st, m => rfl
@@ -869,55 +897,15 @@ theorem sim_input (S : OpSem α) (fns : List Fn) (args : List α) (st : St) (r :
   | none => rfl
   | some i => exact hE i (h.bnd.handles i ho)
 
-/-- items of a subgraph-free, inline-free trace. -/
+/-- items of a subgraph-free trace. -/
 def simItem : Item → Bool
-  | .inline _ _ _ _ _ => false
   | .beginSub _ _ => false
   | .endSub _ _ => false
   | _ => true
 
-theorem simItem_wf {it : Item} (h : simItem it = true) : wfItem it = true := by
-  cases it <;> simp_all [simItem, wfItem]
-
-theorem sim_step (S : OpSem α) (fns : List Fn) (args : List α) (total : Bool) (st : St) (r : RSt α)
-    (it : Item) (hs : simItem it = true) (h : Sim S args st r) :
-    Sim S args (step total fns st it) (replayStep S fns args r it) := by
-  have hb := Bnd.step total fns st it (simItem_wf hs) h.bnd
-  cases it with
-  | input n => exact sim_input S fns args st r n h
-  | op t a o nn g as => exact sim_op S fns args total st r t a o nn g as h
-  | push n => exact sim_meta S args st _ r h hb (Nat.le_refl _) rfl rfl rfl rfl rfl
-  | pop =>
-    simp only [step, popScope, replayStep] at hb ⊢
-    split
-    · exact sim_fail S args st r _ h
-    · exact sim_meta S args st _ r h (by simpa [*] using hb) (Nat.le_refl _) rfl rfl rfl rfl rfl
-  | call fi a o as =>
-    cases hf : fns[fi]? with
-    | none =>
-      simp only [step, doCall, hf, replayStep]
-      exact sim_fail S args st r _ h
-    | some f => exact sim_call S fns args total st r fi a o as f hf h
-  | inline f a o p as => simp [simItem] at hs
-  | beginSub g i => simp [simItem] at hs
-  | endSub r d => simp [simItem] at hs
-  | output hd n =>
-    refine sim_meta S args st _ r h hb ?_ ?_ ?_ ?_ ?_ ?_ <;>
-      (simp only [step, doOutput]; split <;> [skip; (split <;> [split; skip])]) <;>
-      simp [fail, renameValue, St.L] <;> (try split) <;> simp
-
 theorem Sim.init (S : OpSem α) (args : List α) : Sim S args St.init ⟨[], 0⟩ := by
   refine ⟨Bnd.init, ⟨by simp [St.init], by simp [St.init], by simp [St.init]⟩, by simp [St.init],
     by simp [St.init], by simp [St.init]⟩
-
-theorem sim_foldl (S : OpSem α) (fns : List Fn) (args : List α) (total : Bool) :
-    ∀ (tr : List Item) (st : St) (r : RSt α), (∀ it ∈ tr, simItem it = true) → Sim S args st r →
-    Sim S args (tr.foldl (step total fns) st) (tr.foldl (replayStep S fns args) r)
-  | [], _, _, _, h => h
-  | it :: rest, st, r, hs, h => by
-    simp only [List.foldl_cons]
-    exact sim_foldl S fns args total rest _ _ (fun x hx => hs x (by simp [hx]))
-      (sim_step S fns args total st r it (hs it (by simp)) h)
 
 /-! ## well-formedness through `call_inline` -/
 
@@ -1179,5 +1167,229 @@ theorem Bnd.foldlAll (total : Bool) (fns : List Fn) : ∀ (tr : List Item) (st :
   | it :: r, st, h => by
     simp only [List.foldl_cons]
     exact Bnd.foldlAll total fns r _ (Bnd.stepAll total fns st it h)
+
+/-! ## the simulation through `call_inline` -/
+
+theorem cloneNodes_outs_ge (np : String) : ∀ (nodes : List FNode) (st : St) (m : VMap),
+    ∀ c ∈ (cloneNodes st m np nodes).2.2, ∀ o ∈ c.outs, st.L ≤ o
+  | [], _, _ => by simp [cloneNodes]
+  | n :: r, st, m => by
+    intro c hc o ho
+    simp only [cloneNodes, List.mem_cons] at hc
+    obtain ⟨i1, i2⟩ := newValues_ids st (n.outs.map (fun o => if o = "" then "" else np ++ o))
+    rcases hc with rfl | hc
+    · simp only [cloneNode] at ho
+      rw [i1] at ho
+      simp only [List.mem_map, List.mem_range] at ho
+      obtain ⟨j, _, rfl⟩ := ho
+      omega
+    · have := cloneNodes_outs_ge np r (cloneNode st m np n).1 (cloneNode st m np n).2.1 c hc o ho
+      have hL : st.L ≤ (cloneNode st m np n).1.L := by
+        simp only [cloneNode]; rw [i2]; omega
+      omega
+
+theorem args_vals_refs (S : OpSem α) (st : St) (r : RSt α) (E : Env α)
+    (hv : st.handles.map (fun o => o.bind E) = r.henv) :
+    ∀ (a : List Arg), a.all isRef = true →
+      (resolveArgs st a).2.map (fun o => o.bind E) = a.map (argVal S r.henv)
+  | [], _ => rfl
+  | .ref h :: rest, hr => by
+    simp only [List.all_cons, isRef, Bool.true_and] at hr
+    simp only [resolveArgs, List.map_cons, argVal, List.cons.injEq]
+    exact ⟨by rw [← hv, getD_map_bind], args_vals_refs S st r E hv rest hr⟩
+  | .none :: rest, hr => by
+    simp only [List.all_cons, isRef, Bool.true_and] at hr
+    simp only [resolveArgs, List.map_cons, argVal, List.cons.injEq]
+    exact ⟨rfl, args_vals_refs S st r E hv rest hr⟩
+  | .lit _ :: _, hr => by simp [isRef] at hr
+
+/-- what `doInline` leaves untouched on its success path. -/
+theorem doInline_fields (total : Bool) (fns : List Fn) (st : St) (fi : Nat) (args : List Arg)
+    (outs : Option (List String)) (pfx : String) (as : List (String × AVal)) (f : Fn) (hf : fns[fi]? = some f)
+    (h1 : args.all isRef = true) (h2 : ¬ args.length > f.formals.length) (h3 : outsMismatch outs f = false) :
+    (doInline total fns st fi args outs pfx as).cache = st.cache ∧
+    (doInline total fns st fi args outs pfx as).inits = st.inits ∧
+    (doInline total fns st fi args outs pfx as).cur.inputs = st.cur.inputs ∧
+    st.L ≤ (doInline total fns st fi args outs pfx as).L := by
+  have hst0 : ∀ s : St, SameBut s (if pfx = "" then s else pushScope s pfx) := by
+    intro s; split
+    · exact SameBut.refl s
+    · simp [SameBut, pushScope, St.L]
+  generalize hs0 : (if pfx = "" then st else pushScope st pfx) = st0
+  obtain ⟨a1, a2, a3, a4, a5, a6, a7⟩ := hs0 ▸ hst0 st
+  have hb := cloneNodes_wf (autoNodeName st0.cur (nodeCount total st0) (resolveFn (effectiveAttrs total f as) f).name ++ "/")
+  obtain ⟨u1, u2, u3, u4, u5, u6, u7⟩ := inlineRun_but total st0 (resolveFn (effectiveAttrs total f as) f)
+    (resolveArgs st0 args).2 (outs.map (fun o => o.map (qualifyValue st.cur)))
+  have hc3 : (inlineClones total st0 (resolveFn (effectiveAttrs total f as) f) (resolveArgs st0 args).2).1.cache = st0.cache ∧
+      (inlineClones total st0 (resolveFn (effectiveAttrs total f as) f) (resolveArgs st0 args).2).1.inits = st0.inits ∧
+      (inlineClones total st0 (resolveFn (effectiveAttrs total f as) f) (resolveArgs st0 args).2).1.cur = st0.cur ∧
+      st0.L ≤ (inlineClones total st0 (resolveFn (effectiveAttrs total f as) f) (resolveArgs st0 args).2).1.L := by
+    unfold inlineClones
+    refine ⟨?_, ?_, cloneNodes_csd _ _ _ _, ?_⟩
+    · exact cloneNodes_cache _ _ _ _
+    · exact cloneNodes_inits _ _ _ _
+    · exact cloneNodes_L_le _ _ _ _
+  obtain ⟨k1, k2, k3, k4⟩ := hc3
+  have hpop : ∀ s : St, SameBut s (if pfx = "" then s else popScope s) := by
+    intro s; split
+    · exact SameBut.refl s
+    · exact popScope_but s
+  obtain ⟨v1, v2, v3, v4, v5, v6, v7⟩ := hpop
+    (inlineRun total st0 (resolveFn (effectiveAttrs total f as) f) (resolveArgs st0 args).2
+      (outs.map (fun o => o.map (qualifyValue st.cur)))).1
+  unfold doInline
+  simp only [hf, h1, Bool.not_true, Bool.false_eq_true, if_false, h2, h3, hs0]
+  refine ⟨by rw [v3, u3, k1, a3], by rw [v4, u4, k2, a4], by rw [v5, u5, k3, a5], ?_⟩
+  simp only [St.L] at v1 u1 k4 a1 ⊢
+  omega
+
+theorem sim_inline (S : OpSem α) (fns : List Fn) (args : List α) (st : St) (r : RSt α)
+    (fi : Nat) (a : List Arg) (o : Option (List String)) (p : String) (as : List (String × AVal))
+    (hssa : ∀ f ∈ fns, ∀ n ∈ f.nodes, n.outs.Nodup) (h : Sim S args st r) :
+    Sim S args (doInline true fns st fi a o p as) (replayStep S fns args r (.inline fi a o p as)) := by
+  cases hf : fns[fi]? with
+  | none =>
+    simp only [doInline, replayStep, hf]
+    exact sim_fail S args st r _ h
+  | some f =>
+    by_cases h1 : a.all isRef = true
+    · by_cases h2 : a.length > f.formals.length
+      · simp only [doInline, replayStep, hf, h1, h2, Bool.not_true, Bool.false_eq_true, if_false, if_true,
+          decide_true, Bool.true_or, Bool.or_true, Bool.false_or]
+        exact sim_fail S args st r _ h
+      · cases h3 : outsMismatch o f with
+        | true =>
+          simp only [doInline, replayStep, hf, h1, h2, h3, Bool.not_true, Bool.false_eq_true, if_false, if_true,
+            decide_false, Bool.or_true, Bool.false_or]
+          exact sim_fail S args st r _ h
+        | false =>
+          have hfm : f ∈ fns := List.mem_of_getElem? hf
+          obtain ⟨n1, n2⟩ := doInline_appends true fns st fi a o p as f hf h1 h2 h3
+          obtain ⟨q1, q2, q3, q4⟩ := doInline_fields true fns st fi a o p as f hf h1 h2 h3
+          have hb := Bnd.doInline true fns st fi a o p as h.bnd
+          have hrep : replayStep S fns args r (.inline fi a o p as)
+              = ⟨r.henv ++ callMeaning S f as (a.map (argVal S r.henv)), r.nin⟩ := by
+            simp [replayStep, hf, h1, h2, h3]
+          rw [hrep]
+          -- the builder the body is inlined into
+          have hs0 : ∀ s : St, (if p = "" then s else pushScope s p).handles = s.handles ∧
+              (if p = "" then s else pushScope s p).L = s.L := by
+            intro s; split <;> simp [pushScope, St.L]
+          obtain ⟨z1, z2⟩ := hs0 st
+          generalize hst0 : (if p = "" then st else pushScope st p) = st0 at n1 n2 z1 z2
+          generalize hf' : resolveFn (effectiveAttrs true f as) f = f' at n1 n2
+          have hfo : f'.outputs = f.outputs := by rw [← hf']; rfl
+          have hssa' : ∀ n ∈ f'.nodes, n.outs.Nodup := by
+            intro n hn
+            rw [← hf'] at hn
+            simp only [resolveFn, List.mem_map] at hn
+            obtain ⟨n0, hn0, rfl⟩ := hn
+            exact hssa f hfm n0 hn0
+          have hact : ∀ i, some i ∈ (resolveArgs st0 a).2 → i < st0.L := by
+            intro i hi
+            have : ∀ (l : List Arg) (s : St), l.all isRef = true → ∀ j, some j ∈ (resolveArgs s l).2 →
+                some j ∈ s.handles := by
+              intro l
+              induction l with
+              | nil => intro s _ j hj; simp [resolveArgs] at hj
+              | cons x xs ih =>
+                intro s hl j hj
+                cases x with
+                | ref hd =>
+                  simp only [List.all_cons, isRef, Bool.true_and] at hl
+                  simp only [resolveArgs, List.mem_cons] at hj
+                  rcases hj with hj | hj
+                  · exact getD_mem hj.symm
+                  · exact ih s hl j hj
+                | none =>
+                  simp only [List.all_cons, isRef, Bool.true_and] at hl
+                  simp only [resolveArgs, List.mem_cons, reduceCtorEq, false_or] at hj
+                  exact ih s hl j hj
+                | lit l => simp [isRef] at hl
+            have hm := this a st0 h1 i hi
+            rw [z1] at hm
+            rw [z2]
+            exact h.bnd.handles i hm
+          unfold inlineClones at n1 n2
+          obtain ⟨c1, c2, _⟩ := cloneNodes_sim S
+            (autoNodeName st0.cur (nodeCount true st0) f'.name ++ "/") f'.nodes st0 (f'.formals.zip (resolveArgs st0 a).2)
+            (evalGraph S st args) (bindFormals f'.formals ((resolveArgs st0 a).2.map (fun x => x.bind (evalGraph S st args))))
+            (vmapGet_zip_bound f'.formals _ st0.L hact) (rel_formals _ f'.formals _) hssa'
+          have hge := cloneNodes_outs_ge (autoNodeName st0.cur (nodeCount true st0) f'.name ++ "/") f'.nodes st0
+            (f'.formals.zip (resolveArgs st0 a).2)
+          generalize hcl : cloneNodes st0 (f'.formals.zip (resolveArgs st0 a).2)
+            (autoNodeName st0.cur (nodeCount true st0) f'.name ++ "/") f'.nodes = cl at n1 n2 c1 c2 hge
+          have hE : evalGraph S (doInline true fns st fi a o p as) args = evalNodes S (evalGraph S st args) cl.2.2 := by
+            unfold evalGraph baseEnv
+            rw [n1, q1, q3]
+            simp [evalNodes, List.foldl_append]
+          have hvals0 : st0.handles.map (fun x => x.bind (evalGraph S st args)) = r.henv := by rw [z1]; exact h.vals
+          have hargs := args_vals_refs S st0 r (evalGraph S st args) hvals0 a h1
+          refine ⟨hb, h.cok.grow q1 q2 q4, by rw [h.nin, q3], ?_, ?_⟩
+          · intro nd hnd x hx hcon
+            rw [q2, h.cok.inits] at hcon
+            simp only [List.mem_map] at hcon
+            obtain ⟨e, he, rfl⟩ := hcon
+            have hlt := h.cok.bound e he
+            rw [n1] at hnd
+            rcases List.mem_append.mp hnd with y | y
+            · exact h.sep nd y e.2 hx (by rw [h.cok.inits]; exact List.mem_map_of_mem (f := (·.2)) he)
+            · have := hge nd y e.2 hx
+              rw [z2] at this
+              omega
+          · rw [n2, List.map_append, hE]
+            congr 1
+            · rw [← h.vals]
+              apply List.map_congr_left
+              intro x hx
+              cases x with
+              | none => rfl
+              | some i =>
+                simp only [Option.bind_some]
+                exact c2 i (by rw [z2]; exact h.bnd.handles i hx)
+            · simp only [callMeaning, evalBody, hf', List.map_map, hfo, ← hargs]
+              apply List.map_congr_left
+              intro x _
+              exact c1 x
+    · have h1' : (!a.all isRef) = true := by simpa using h1
+      simp only [doInline, replayStep, hf, h1', if_true, Bool.true_or]
+      exact sim_fail S args st r _ h
+
+theorem sim_step (S : OpSem α) (fns : List Fn) (args : List α) (st : St) (r : RSt α)
+    (it : Item) (hssa : ∀ f ∈ fns, ∀ n ∈ f.nodes, n.outs.Nodup) (hs : simItem it = true) (h : Sim S args st r) :
+    Sim S args (step true fns st it) (replayStep S fns args r it) := by
+  have hb := Bnd.stepAll true fns st it h.bnd
+  cases it with
+  | input n => exact sim_input S fns args st r n h
+  | op t a o nn g as => exact sim_op S fns args true st r t a o nn g as h
+  | push n => exact sim_meta S args st _ r h hb (Nat.le_refl _) rfl rfl rfl rfl rfl
+  | pop =>
+    simp only [step, popScope, replayStep] at hb ⊢
+    split
+    · exact sim_fail S args st r _ h
+    · exact sim_meta S args st _ r h (by simpa [*] using hb) (Nat.le_refl _) rfl rfl rfl rfl rfl
+  | call fi a o as =>
+    cases hf : fns[fi]? with
+    | none =>
+      simp only [step, doCall, hf, replayStep]
+      exact sim_fail S args st r _ h
+    | some f => exact sim_call S fns args true st r fi a o as f hf h
+  | inline f a o p as => exact sim_inline S fns args st r f a o p as hssa h
+  | beginSub g i => simp [simItem] at hs
+  | endSub r d => simp [simItem] at hs
+  | output hd n =>
+    refine sim_meta S args st _ r h hb ?_ ?_ ?_ ?_ ?_ ?_ <;>
+      (simp only [step, doOutput]; split <;> [skip; (split <;> [split; skip])]) <;>
+      simp [fail, renameValue, St.L] <;> (try split) <;> simp
+
+theorem sim_foldl (S : OpSem α) (fns : List Fn) (args : List α)
+    (hssa : ∀ f ∈ fns, ∀ n ∈ f.nodes, n.outs.Nodup) :
+    ∀ (tr : List Item) (st : St) (r : RSt α), (∀ it ∈ tr, simItem it = true) → Sim S args st r →
+    Sim S args (tr.foldl (step true fns) st) (tr.foldl (replayStep S fns args) r)
+  | [], _, _, _, h => h
+  | it :: rest, st, r, hs, h => by
+    simp only [List.foldl_cons]
+    exact sim_foldl S fns args hssa rest _ _ (fun x hx => hs x (by simp [hx]))
+      (sim_step S fns args st r it hssa (hs it (by simp)) h)
 
 end OV.C18
